@@ -253,7 +253,9 @@ func (wtr *JSONWtr) endContainer() (err error) {
 }
 
 func (wtr *JSONWtr) writeValue(p *node.Path, v val.Value) error {
-	wtr.writeIdent(wtr.ident(p))
+	if err := wtr.writeIdent(wtr.ident(p)); err != nil {
+		return err
+	}
 	if v.Format().IsList() {
 		if _, err := wtr._out.WriteRune('['); err != nil {
 			return err
@@ -298,6 +300,11 @@ func (wtr *JSONWtr) writeValue(p *node.Path, v val.Value) error {
 				if err := wtr.writeString(item.(val.Enum).Label); err != nil {
 					return err
 				}
+			}
+		case val.FmtEmpty:
+			// RFC 7951 Sec 6.9
+			if _, err := wtr._out.WriteString("[null]"); err != nil {
+				return err
 			}
 		case val.FmtDecimal64:
 			f := item.Value().(float64)
